@@ -341,3 +341,83 @@ def c08_handle_histories(tier):
                                        "streams": [{"name": "a", "runs": [[f.next(), n // 2], [f.next(), n - n // 2]]}], "ops": ops})
                             i += 1
     return hs
+
+
+def setlen_within_unit_histories(tier, label="wu"):
+    """Through one handle: the stream is cut and grown again inside the same final (mini) sector
+    (gens.within_unit_triples); the gap must read as zeros through the same handle, a fresh one and the file."""
+    hs = []
+    f = gens.Fill()
+    i = 0
+    for ver in (3, 4):
+        tr = gens.within_unit_triples(ver)
+        for j, (L0, L1, L2) in enumerate(tr):
+            if tier == "quick" and j % 3:
+                continue
+            mb = CONFIGS[j % len(CONFIGS)]
+            pre = [0, L1 // 2, L0][j % 3]
+            ops = [{"op": "open"}, {"op": "open_stream", "name": "a"}, {"op": "read", "n": pre}, {"op": "position"},
+                   {"op": "set_len", "n": L1}, {"op": "position"}, {"op": "len"},
+                   {"op": "set_len", "n": L2}, {"op": "position"}, {"op": "len"},
+                   {"op": "seek", "whence": "start", "d": 0, "sym": ""}, {"op": "read_to_end"},
+                   {"op": "flush"}, {"op": "fresh_read"}]
+            hs.append({"id": f"{label}{i}", "ver": ver, "maxbuf": mb, "mode": "plain",
+                       "streams": [{"name": "a", "runs": [[f.next(), L0 // 2], [f.next(), L0 - L0 // 2]]}], "ops": ops})
+            i += 1
+    return hs
+
+
+def dropped_file_histories(tier, seed=1):
+    """Beyond the listed properties: the CompoundFile is dropped or consumed by into_inner while a handle
+    (and a parked second handle) is alive; every later call on the handles returns what the byte-vector
+    model says or an error, never a panic, and an Ok flush / set_len cannot happen once data would have to
+    reach the file (tag XDROP, informational)."""
+    import random
+    rng = random.Random(seed * 77 + 5)
+    f = gens.Fill()
+    hs = []
+    n = 24 if tier == "quick" else 200
+    for i in range(n):
+        ver = 3 + i % 2
+        mb = CONFIGS[i % len(CONFIGS)]
+        size = [300, 3000, 5000, 9000][i % 4]
+        ops = [{"op": "open"}, {"op": "open_stream", "name": "a"}]
+        for _ in range(rng.randint(0, 3)):
+            k = rng.choice(["read", "write", "seek"])
+            if k == "read":
+                ops.append({"op": "read", "n": rng.choice([1, 100, 1024, 2000])})
+            elif k == "write":
+                ops.append({"op": "write", "runs": [[f.next(), rng.choice([1, 10, 700])]]})
+            else:
+                ops.append({"op": "seek", "whence": "start", "d": rng.randint(0, size), "sym": ""})
+        ops.append({"op": "position"})
+        if i % 3 == 0:
+            ops += [{"op": "park"}, {"op": "open_stream", "name": "b"}, {"op": "read", "n": 10}]
+        ops.append({"op": "drop_cf", "how": "into_inner" if i % 2 else "drop"})
+        for _ in range(rng.randint(4, 10)):
+            k = rng.choice(["read", "write", "seek", "flush", "set_len", "fill", "len", "rte"])
+            if k == "read":
+                ops.append({"op": "read", "n": rng.choice([1, 100, 1024, 5000])})
+            elif k == "write":
+                ops.append({"op": "write", "runs": [[f.next(), rng.choice([1, 10, 2000])]]})
+            elif k == "seek":
+                w = rng.choice(["start", "cur", "end"])
+                ops.append({"op": "seek", "whence": w, "d": rng.choice([0, 0, 5, 1000, size]) if w == "start" else rng.choice([0, 0, 5, -5, 1000, -1000]), "sym": ""})
+            elif k == "flush":
+                ops.append({"op": "flush"})
+            elif k == "set_len":
+                ops.append({"op": "set_len", "n": rng.choice([0, 100, size, size + 50])})
+            elif k == "fill":
+                ops += [{"op": "fill_buf"}, {"op": "consume", "n": rng.choice([0, 1, 50])}]
+            elif k == "rte":
+                ops.append({"op": "read_to_end"})
+            else:
+                ops.append({"op": "len"})
+            ops.append({"op": "position"})
+        ops.append({"op": "close"})
+        if i % 3 == 0:
+            ops += [{"op": "unpark"}, {"op": "position"}, {"op": "read", "n": 64}, {"op": "position"}, {"op": "flush"}, {"op": "close"}]
+        hs.append({"id": f"gone{i}", "ver": ver, "maxbuf": mb, "mode": "plain",
+                   "streams": [{"name": "a", "runs": [[f.next(), size // 2], [f.next(), size - size // 2]]},
+                               {"name": "b", "runs": [[f.next(), 200]]}], "ops": ops})
+    return hs
